@@ -3,7 +3,8 @@
 import sys, os, json, shutil, subprocess
 prop, mut, sid, caught, detected = sys.argv[1:6]
 note = sys.argv[6] if len(sys.argv) > 6 else ""
-src = "/tmp/wt/%s_out" % prop
+base = os.environ.get("SEED_BASE", "/tmp/wt")
+src = "%s/%s_out" % (base, prop)
 dst = "/verif/seeded/%s" % sid
 os.makedirs(dst, exist_ok=True)
 shutil.copy(os.path.join(src, mut + ".diff"), os.path.join(dst, "patch.diff"))
@@ -15,7 +16,7 @@ pk = [l for l in open(demo) if l.startswith("package ")][0].split()[1]
 if pk.endswith("_test"):
     pk = pk[:-5]
 d = {"zenodb": ".", "rpcserver": "rpc/server"}.get(pk, pk)
-ver = subprocess.run(["/verif/tools/verify_mutant.sh", "/tmp/wt/" + prop, os.path.join(src, mut + ".diff"), demo], capture_output=True, text=True).stdout.strip().splitlines()[-1]
+ver = subprocess.run(["/verif/tools/verify_mutant.sh", base + "/" + prop, os.path.join(src, mut + ".diff"), demo], capture_output=True, text=True).stdout.strip().splitlines()[-1]
 meta = {
     "id": sid,
     "property": prop,
@@ -23,7 +24,7 @@ meta = {
     "files_changed": sorted(set(l[6:].strip() for l in open(os.path.join(dst, "patch.diff")) if l.startswith("+++ b/"))),
     "demo": {"file": "demo_test.go.txt", "copy_into_package_dir": d, "run": "go test -vet=off -count=1 -run Test ./%s" % d},
     "needs_to_manifest": md.strip()[:1500],
-    "confirmed_by_me": {"command": "tools/verify_mutant.sh /tmp/wt/%s <patch> <demo>" % prop, "result": ver,
+    "confirmed_by_me": {"command": "tools/verify_mutant.sh <scratch worktree> <patch> <demo>", "result": ver,
                         "meaning": "patch applies and builds; go test of the touched packages and of the root package still pass with it (encoding's rand-based TestSequenceOnly, flaky on the unchanged tree, skipped); demo fails with the patch and passes without"},
     "checks_run": "git apply in a scratch worktree, ZX_REPO=<worktree> bin/zx check %s (quick tier), git checkout -- ." % prop,
     "detected": detected,
